@@ -452,9 +452,14 @@ def emit(c, ref, res):
     else:
         exp = '(Ok %s)' % coq_list(['(%s, %s)' % (k, cs(t)) for k, t in ref])
     m = coq_list(['(%s, %s)' % (cs(k), cs(v)) for k, v in c['m'].items()])
-    return 'c13_lex %s %s && c13_fun %s %s %s %s %s %s %s' % (
+    wf = ''
+    if not isinstance(ref, str):
+        body = [t for t in content(ref) if t[0] != 'COMMENT']
+        dd = any(a == ('OP', '.') and b == ('OP', '.') for a, b in zip(body, body[1:]))
+        wf = ' && c13_wf %s %s %s' % (cs(c['s']), common.coq_bool(ops_safe_py(ref)), common.coq_bool(dd))
+    return 'c13_lex %s %s && c13_fun %s %s %s %s %s %s %s%s' % (
         cs(c['s']), exp, cs(c['s']), m, cs(c['a']), cs(c['b']),
-        cres(res['names'], lambda l: coq_list([cs(x) for x in l])), cres(res['lookup'], cs), cres(res['single'], cs))
+        cres(res['names'], lambda l: coq_list([cs(x) for x in l])), cres(res['lookup'], cs), cres(res['single'], cs), wf)
 
 
 # ---------------------------------------------------------------- run
